@@ -30,7 +30,9 @@ import (
 // Adv is one adversarial item.
 type Adv struct {
 	// Kind: f1-header | f1-data | f1-pair | f2-header | f2-data | f3-unsigned | f3-garbage-sig |
-	//       f4-chainid | f4-past | f4-future | f5-header-bytes | f5-data-bytes | foreign-address
+	//       f4-chainid | f4-past | f4-future | f5-header-bytes | f5-data-bytes | foreign-address |
+	//       f6-replayed-txs (the PUBLIC transaction list of an earlier genuine block under forged metadata
+	//       naming a later height, signed by the adversary: same data commitment as genuine data)
 	Kind string `json:"kind"`
 	// Target is the offset (from the initial height) of the block the item targets; == len(chain) means top+1.
 	Target int `json:"target"`
@@ -49,7 +51,7 @@ type Scenario struct {
 	Advs          []Adv     `json:"advs"`
 }
 
-var kinds = []string{"f1-header", "f1-data", "f1-pair", "f1-pair", "f2-header", "f2-data", "f3-unsigned", "f3-garbage-sig", "f4-chainid", "f4-past", "f4-future", "f5-header-bytes", "f5-data-bytes", "foreign-address"}
+var kinds = []string{"f6-replayed-txs", "f6-replayed-txs", "f1-header", "f1-data", "f1-pair", "f1-pair", "f2-header", "f2-data", "f3-unsigned", "f3-garbage-sig", "f4-chainid", "f4-past", "f4-future", "f5-header-bytes", "f5-data-bytes", "foreign-address"}
 
 func gen(t *rapid.T) Scenario {
 	sc := Scenario{InitialHeight: c02gen.GenInitial(t)}
@@ -71,6 +73,9 @@ type item struct {
 	sd         *types.SignedData
 	// genuine reports that the item is byte-for-byte / hash-for-hash a genuine one (no-op mutation)
 	genuineHdr, genuineData bool
+	// replayed: the item's transaction list (hence its commitment) is that of a genuine block, its
+	// metadata and signature are the adversary's
+	replayed bool
 }
 
 var evilTx = []byte("evil=1")
@@ -144,6 +149,28 @@ func build(a Adv, c *fw.Chain) item {
 	case "f1-pair":
 		it.sd = evilData(base)
 		it.hdr = forgeHeader(func(h *types.SignedHeader) { h.DataHash = it.sd.Data.DACommitment() })
+	case "f6-replayed-txs":
+		var src *fw.ChainBlock
+		for i := range c.Blocks {
+			if i < tgt && !c.Blocks[i].Empty {
+				src = &c.Blocks[i]
+			}
+		}
+		if src == nil {
+			it.sd = evilData(base)
+		} else {
+			d := types.Data{Metadata: &types.Metadata{ChainID: base.ChainID(), Height: base.Height(), Time: base.BaseHeader.Time, LastDataHash: sha256Sum([]byte("forged"))}}
+			for _, tx := range src.Txs {
+				d.Txs = append(d.Txs, tx)
+			}
+			bz, _ := d.MarshalBinary()
+			signer := types.Signer{PubKey: advPub, Address: proposer}
+			if a.Mut%2 == 1 {
+				signer.Address = types.KeyAddress(advPub)
+			}
+			it.sd = &types.SignedData{Data: d, Signature: sign(advPriv, bz), Signer: signer}
+			it.replayed = true
+		}
 	case "f2-header":
 		it.hdr = forgeHeader(func(h *types.SignedHeader) {
 			switch a.Mut % 4 {
@@ -448,6 +475,9 @@ func run(sc Scenario, dir string) world.Verdict {
 					return world.Fail("C03/forged-header-applied/"+it.adv.Kind, "the node applied and stored a header at height %d that was not signed by the proposer (%s via %s)", h, it.adv.Kind, it.adv.Ingress)
 				}
 			}
+			if pd := producerData(c, h); pd != nil && !bytes.Equal(pd.Hash(), data.Hash()) && len(data.Txs) > 0 {
+				return world.Fail("C03/forged-data-stored", "the transaction data stored at height %d (hash %x) is not the data the proposer signed (hash %x)", h, data.Hash(), pd.Hash())
+			}
 			for _, tx := range data.Txs {
 				if bytes.Equal(tx, evilTx) {
 					return world.Fail("C03/forged-data-applied", "the node applied transaction data at height %d that was not signed by the proposer", h)
@@ -529,4 +559,13 @@ func isGenuineHash(c *fw.Chain, h []byte) bool {
 func TestC03(t *testing.T) {
 	dir := t.TempDir()
 	world.Run(t, "C03", "forgeries", world.Scale(300, 2000), gen, func(sc Scenario) world.Verdict { return run(sc, dir) })
+}
+
+// producerData returns the data the proposer committed (and signed) at height h.
+func producerData(c *fw.Chain, h uint64) *types.Data {
+	_, d, err := c.P.N.Store.GetBlockData(context.Background(), h)
+	if err != nil {
+		return nil
+	}
+	return d
 }
